@@ -504,6 +504,8 @@ pub fn visit(ctx: &mut Ctx, node: &Node) -> Vec<Successor> {
     ctx.query = "is_terminal";
     let term = gs.is_terminal();
     ctx.query = "";
+    ctx.stats.max("max_actions_offered_in_one_state", nr.len() as u64);
+    ctx.stats.max("max_pieces_on_board", gs.piece_board().all_pieces.count_ones() as u64);
 
     let pp = match gs.as_play_phase() {
         Some(p) => p,
